@@ -824,6 +824,8 @@ class Block(object):
             raise PyrtlInternalError('error, mem write dest should be empty tuple')
         if net.op == 'r' and not isinstance(net.dests[0], Register):
             raise PyrtlInternalError('error, dest of next op should be a Register')
+        if net.op != 'r' and any(isinstance(w, Register) for w in net.dests):
+            raise PyrtlInternalError('error, a Register can only be the dest of a next ("r") op')
 
         # check destination validity
         if net.op in 'w~&|^nr' and net.dests[0].bitwidth > net.args[0].bitwidth:
